@@ -20,7 +20,7 @@ use std::panic::{catch_unwind, AssertUnwindSafe};
 use std::pin::Pin;
 use std::task::{Context, Poll, RawWaker, RawWakerVTable, Waker};
 
-pub const FAMILIES: [&str; 11] = ["sized D", "sized u64", "unit", "zero-sized droppable", "slice of D", "str", "dyn Any", "dyn Any + Send", "dyn Iterator", "dyn Future + Unpin", "dyn Hasher"];
+pub const FAMILIES: [&str; 12] = ["sized D", "sized u64", "unit", "zero-sized droppable", "slice of D", "str", "dyn Any", "dyn Any + Send", "dyn Iterator", "dyn Future + Unpin", "dyn Hasher", "slice of zero-sized droppables"];
 const STEP_NAMES: [&str; 6] = ["-", "into_raw/from_raw", "deref-read", "deref_mut-write", "pin round trip", "compare/hash/format"];
 const TERM_NAMES: [&str; 6] = ["drop", "into_inner / consume", "leak", "into_raw (no from_raw)", "downcast mismatch then match", "try_from array (N wrong, then right)"];
 
@@ -69,7 +69,7 @@ pub fn cases(t: bool) -> Vec<Case> {
 
 fn builds(fam: u8) -> u8 {
     match fam {
-        4 => 5, // Vec::into_boxed_slice, Box::from_iter_in, collect_in, From<Box<[T;N]>>, From<Vec>
+        4 | 11 => 5, // Vec::into_boxed_slice, Box::from_iter_in, collect_in, From<Box<[T;N]>>, From<Vec>
         _ => 1,
     }
 }
@@ -79,7 +79,7 @@ fn term_applies(fam: u8, term: u8) -> bool {
         0 | 2 | 3 => true,
         1 => !matches!(fam, 5), // into_inner needs Sized; for slices/iterators/etc. "consume" has a meaning below
         4 => matches!(fam, 6 | 7),
-        _ => fam == 4,
+        _ => fam == 4 || fam == 11,
     }
 }
 
@@ -168,7 +168,8 @@ macro_rules! chain {
      new = $new:expr, from_raw = $from_raw:path, into_raw = $into_raw:path, leak = $leak:path, into_inner = $into_inner:ident,
      pin_rt = $pin_rt:ident, slice = $slice:expr, arr_to_slice = $arr2s:expr, slice_to_arr2 = $s2a2:expr, slice_to_arr3 = $s2a3:expr,
      any = $any:expr, anysend = $anysend:expr, dynit = $dynit:expr, dynfut = $dynfut:expr, dynhash = $dynhash:expr, boxstr = $boxstr:expr,
-     downcast_any = $dc_any:expr, downcast_anysend = $dc_anysend:expr) => {{
+     downcast_any = $dc_any:expr, downcast_anysend = $dc_anysend:expr,
+     zslice = $zslice:expr, zarr_to_slice = $zarr2s:expr, zslice_to_arr2 = $zs2a2:expr, zslice_to_arr3 = $zs2a3:expr) => {{
         let w: u8 = $world;
         let obs: &mut Obs = $obs;
         let steps: u16 = $steps;
@@ -312,6 +313,23 @@ macro_rules! chain {
                     _ => { let _p = $into_raw(b); }
                 }
             }
+            11 => {
+                // zero-sized droppable elements: nothing is stored, only lengths and destructor counts exist
+                let mut b = $zslice($build);
+                run_steps!(b, |b: &$bx!([Z])| { let s: &[Z] = &**b; s.len() as i64 + 100 }, |b: &mut $bx!([Z])| { let s: &mut [Z] = &mut **b; s.reverse(); }, |b: &$bx!([Z])| { let s: &[Z] = &**b; format!("{:?}", s).len() as i64 });
+                match $term {
+                    0 => drop(b),
+                    1 => { obs.n(b.iter().count() as i64); drop(b); }
+                    2 => { let r: &mut [Z] = $leak(b); obs.n(r.len() as i64); }
+                    3 => { let p = $into_raw(b); obs.n(unsafe { (*p).len() } as i64); }
+                    _ => {
+                        match $zs2a2(b) {
+                            Ok(_) => obs.n(-22),
+                            Err(b) => { obs.n(b.len() as i64); match $zs2a3(b) { Ok(a) => { obs.n(a.len() as i64); let back = $zarr2s(a); obs.n(back.len() as i64); drop(back); } Err(b) => { obs.n(-33); drop(b); } } }
+                        }
+                    }
+                }
+            }
             _ => {
                 let mut b = $dynhash(w);
                 run_steps!(b, |b: &$bx!(dyn Hasher)| (b.finish() % 1000) as i64, |b: &mut $bx!(dyn Hasher)| { b.write(&[1, 2, 3]); b.write_u32(77); }, |b: &$bx!(dyn Hasher)| (b.finish() % 7) as i64);
@@ -383,7 +401,20 @@ fn bump_chain(b: &'static Bump, obs: &mut Obs, fam: u8, build: u8, steps: u16, t
         dynhash = |w: u8| -> BBox<'static, dyn Hasher> { let x = BBox::new_in(CountHasher { inner: DefaultHasher::new(), d: D::new(w, 61, 1) }, b); unsafe { BBox::from_raw(BBox::into_raw(x) as *mut dyn Hasher) } },
         boxstr = |_w: u8| -> BBox<'static, str> { let s = bumpalo::collections::String::from_str_in("héllo€", b); let r: &'static mut str = s.into_bump_str_mut_compat(); unsafe { BBox::from_raw(r as *mut str) } },
         downcast_any = |bx: BBox<'static, dyn Any>| -> Result<D, ()> { match bx.downcast::<u32>() { Ok(_) => Err(()), Err(bx) => match bx.downcast::<D>() { Ok(d) => Ok(BBox::into_inner(d)), Err(_) => Err(()) } } },
-        downcast_anysend = |bx: BBox<'static, dyn Any + Send>| -> Result<D, ()> { match bx.downcast::<u32>() { Ok(_) => Err(()), Err(bx) => match bx.downcast::<D>() { Ok(d) => Ok(BBox::into_inner(d)), Err(_) => Err(()) } } }
+        downcast_anysend = |bx: BBox<'static, dyn Any + Send>| -> Result<D, ()> { match bx.downcast::<u32>() { Ok(_) => Err(()), Err(bx) => match bx.downcast::<D>() { Ok(d) => Ok(BBox::into_inner(d)), Err(_) => Err(()) } } },
+        zslice = |build: u8| -> BBox<'static, [Z]> {
+            use bumpalo::collections::CollectIn;
+            match build {
+                0 => { let mut v = BVec::new_in(b); for z in [Z, Z, Z] { v.push(z); } v.into_boxed_slice() }
+                1 => BBox::from_iter_in([Z, Z, Z], b),
+                2 => [Z, Z, Z].into_iter().collect_in::<BBox<'static, [Z]>>(b),
+                3 => { let a: BBox<'static, [Z; 3]> = BBox::new_in([Z, Z, Z], b); a.into() }
+                _ => { let mut v = BVec::with_capacity_in(8, b); for z in [Z, Z, Z] { v.push(z); } BBox::from(v) }
+            }
+        },
+        zarr_to_slice = |a: BBox<'static, [Z; 3]>| -> BBox<'static, [Z]> { a.into() },
+        zslice_to_arr2 = |s: BBox<'static, [Z]>| -> Result<BBox<'static, [Z; 2]>, BBox<'static, [Z]>> { BBox::<[Z; 2]>::try_from(s) },
+        zslice_to_arr3 = |s: BBox<'static, [Z]>| -> Result<BBox<'static, [Z; 3]>, BBox<'static, [Z]>> { BBox::<[Z; 3]>::try_from(s) }
     );
 }
 
@@ -408,7 +439,17 @@ fn std_chain(obs: &mut Obs, fam: u8, build: u8, steps: u16, term: u8) {
         dynhash = |w: u8| -> Box<dyn Hasher> { Box::new(CountHasher { inner: DefaultHasher::new(), d: D::new(w, 61, 1) }) },
         boxstr = |_w: u8| -> Box<str> { String::from("héllo€").into_boxed_str() },
         downcast_any = |bx: Box<dyn Any>| -> Result<D, ()> { match bx.downcast::<u32>() { Ok(_) => Err(()), Err(bx) => match bx.downcast::<D>() { Ok(d) => Ok(*d), Err(_) => Err(()) } } },
-        downcast_anysend = |bx: Box<dyn Any + Send>| -> Result<D, ()> { match bx.downcast::<u32>() { Ok(_) => Err(()), Err(bx) => match bx.downcast::<D>() { Ok(d) => Ok(*d), Err(_) => Err(()) } } }
+        downcast_anysend = |bx: Box<dyn Any + Send>| -> Result<D, ()> { match bx.downcast::<u32>() { Ok(_) => Err(()), Err(bx) => match bx.downcast::<D>() { Ok(d) => Ok(*d), Err(_) => Err(()) } } },
+        zslice = |build: u8| -> Box<[Z]> {
+            match build {
+                0 | 4 => [Z, Z, Z].into_iter().collect::<Vec<Z>>().into_boxed_slice(),
+                1 | 2 => [Z, Z, Z].into_iter().collect::<Box<[Z]>>(),
+                _ => { let a: Box<[Z; 3]> = Box::new([Z, Z, Z]); a }
+            }
+        },
+        zarr_to_slice = |a: Box<[Z; 3]>| -> Box<[Z]> { a },
+        zslice_to_arr2 = |s: Box<[Z]>| -> Result<Box<[Z; 2]>, Box<[Z]>> { Box::<[Z; 2]>::try_from(s) },
+        zslice_to_arr3 = |s: Box<[Z]>| -> Result<Box<[Z; 3]>, Box<[Z]>> { Box::<[Z; 3]>::try_from(s) }
     );
 }
 
